@@ -291,6 +291,22 @@ Theorem c10_converges_http :
 Proof. exact http_converges. Qed.
 Print Assumptions c10_converges_http.
 
+(* The HTTP source's load() hands out nothing but the server's current document, and a failed
+   load (unparsable body, 5xx, 404) leaves the source object as it was - the repair of F22
+   (commit e788bd5); [http_inv] is preserved by every load (c10_http_inv_preserved). *)
+Theorem c10_http_load_is_honest :
+  forall w st d, http_inv st -> snd (s_load http st w) = SOk d -> exists m, store w = Some (BDoc d, m).
+Proof. exact http_load_honest. Qed.
+Print Assumptions c10_http_load_is_honest.
+Theorem c10_http_failed_load_is_inert :
+  forall w st, snd (s_load http st w) = SErr -> fst (s_load http st w) = st.
+Proof. exact http_failed_load_inert. Qed.
+Print Assumptions c10_http_failed_load_is_inert.
+Theorem c10_http_inv_preserved :
+  forall w st, http_inv st -> http_inv (fst (s_load http st w)).
+Proof. exact http_inv_load. Qed.
+Print Assumptions c10_http_inv_preserved.
+
 (* ... but inside the class NOTHING short of a forced check ever loads again, whatever happens to
    the server (finding F9) ... *)
 Theorem c10_http_etag_stuck :
